@@ -182,7 +182,7 @@ def oracle(case, meta, out):
 def run(chk, replay=None):
     gate, hb = core.std_setup(chk)
     rng = random.Random(chk.seed)
-    n = 11000 if chk.tier == "quick" else 150000
+    n = 11000 if chk.tier == "quick" else 900000
     if replay is not None:
         items = [(replay["case"], replay["meta"])]
     else:
